@@ -171,8 +171,10 @@ type vStored struct {
 
 var vStatuses = []int{200, 204, 404, 500, 302}
 
-// VH_C14_sequential: case = storage*8 + maxBytes*4 + headers*2 + invalidator
+// VH_C14_sequential: case = generators*16 + storage*8 + maxBytes*4 + headers*2 + invalidator
 func VH_C14_sequential(caseID int) {
+	gen := caseID/16 == 1 // custom ExpirationGenerator and KeyGenerator
+	caseID %= 16
 	stub := caseID/8 == 1
 	maxBytes := uint(0)
 	if (caseID/4)%2 == 1 {
@@ -186,6 +188,20 @@ func VH_C14_sequential(caseID int) {
 	if stub {
 		st = &vCacheStore{data: map[string][]byte{}, exp: map[string]int64{}}
 		cfg.Storage = st
+	}
+	expFor := func(path string) int64 { return expSec }
+	if gen {
+		// per-response lifetime: 1 s for /a, 3 s for everything else; keys carry a prefix
+		expFor = func(path string) int64 {
+			if path == "/a" {
+				return 1
+			}
+			return 3
+		}
+		cfg.ExpirationGenerator = func(c fiber.Ctx, _ *Config) time.Duration {
+			return time.Duration(expFor(c.Path())) * time.Second
+		}
+		cfg.KeyGenerator = func(c fiber.Ctx) string { return "K" + c.Path() }
 	}
 	invalidate := false
 	if withInval {
@@ -279,7 +295,7 @@ func VH_C14_sequential(caseID int) {
 			cacheable := cur.status == 200 || cur.status == 204 || cur.status == 404
 			noStore := directive == "no-store" || directive == "private, no-store"
 			if method == "GET" && !noStore && cacheable && (maxBytes == 0 || uint(len(cur.body)) <= maxBytes) {
-				model[key] = &vStored{o: cur, exp: now + expSec}
+				model[key] = &vStored{o: cur, exp: now + expFor(path)}
 			}
 		}
 		// MaxBytes: the bytes actually held (memory store / stub contents) never exceed the bound
